@@ -125,7 +125,7 @@ pub fn dyntick(data: &[u8]) {
         };
         // further trailing bytes: regular stretches (fill / drain / cycle)
         let mut macros = vec![];
-        for _ in 0..u.int_in_range(0u8..=4).unwrap_or(0) {
+        for _ in 0..u.int_in_range(0u8..=2).unwrap_or(0) {
             let seed: u8 = u.arbitrary().unwrap_or(0);
             let slot = u.int_in_range(0i16..=87).unwrap_or(0);
             macros.push(match u.int_in_range(0u8..=2).unwrap_or(0) {
